@@ -43,7 +43,9 @@ def make_set(rng, tier):
                        notifs=(0, 2), groups=(0, 2), syntax='rich',
                        features=['traps', 'compliance', 'capabilities', 'types', 'smi_tc', 'defval',
                                  'defval_zero', 'blocks'],
-                       p_identity=rng.choice([0.2, 0.7, 1.0]), p_hyphen=rng.choice([0.0, 0.3]))
+                       p_identity=rng.choice([0.2, 0.7, 1.0]), p_hyphen=rng.choice([0.0, 0.3]),
+                       # texts with line breaks, so that a text filter has something to keep or squeeze
+                       text_fn=(c02_ast.multiline_text if rng.random() < 0.6 else None))
     return gen.SetGen(rng, prof).build()
 
 
@@ -210,6 +212,10 @@ def short(o):
     return s if len(s) < 160 else s[:160] + '...'
 
 
+def KEEP_LAYOUT(symbol, text):
+    return text
+
+
 def case_codegen(idx, rng, tier, res):
     from pysmi.codegen.symtable import SymtableCodeGen
     backend = rng.choice(['json', 'pysnmp'])
@@ -248,6 +254,9 @@ def case_codegen(idx, rng, tier, res):
     prev = None
     for k, (how, ast, tab, m) in enumerate(units):
         kw = {'genTexts': rng.random() < 0.5}
+        if rng.random() < 0.3:
+            kw['textFilter'] = KEEP_LAYOUT      # what mibdump --keep-texts-layout passes; per call, not sticky
+            res.count('calls_with_a_text_filter')
         a = gen_outcome(shared_sym, shared_cg, ast, tab, **kw)
         b = gen_outcome(SymtableCodeGen(), pipeline.make_codegen(backend), ast, tab, **kw)
         res.count('elements_compared')
@@ -356,7 +365,11 @@ def case_compiler(idx, rng, tier, res):
             victim = rng.choice(names)
             texts[victim] = break_text(rng, texts[victim], rng.choice(BROKEN)) if rng.random() < 0.6 \
                 else semantic_break(rng, texts[victim])
-        calls.append((texts, names, {'genTexts': rng.random() < 0.5, 'ignoreErrors': rng.random() < 0.5}))
+        opts = {'genTexts': rng.random() < 0.5, 'ignoreErrors': rng.random() < 0.5}
+        if rng.random() < 0.3:
+            opts['textFilter'] = KEEP_LAYOUT
+            res.count('calls_with_a_text_filter')
+        calls.append((texts, names, opts))
 
     def summarize(results, written):
         out = {}
